@@ -682,6 +682,9 @@ RULE = ("Hypothesis: start vertex + 1..7 steps of class oblique / horizontal / v
         "after an edit whose nearest point is an interior foot.  "
         "Distinct = hash of the case.")
 
+# coverage-guided stage of the thorough tier (vt/fuzz.py): sub-check -> libFuzzer executions
+FUZZ = {'polyline': 15000}
+
 SUBCHECKS = [
     SubCheck("segment", body_segment, strategy=strat_segment, quick=10000, thorough=300000,
              rule="proj_segment on one proper segment, 1..4 queries"),
